@@ -244,6 +244,10 @@ class OMPLoopTrans(ParallelLoopTrans):
                                    Config.get().reproducible_reductions)
 
         if self._reprod:
+            # Validate before the symbol table is altered so that a
+            # refused transformation leaves nothing behind.
+            self.validate(node, options)
+
             # When reprod is True, the variables th_idx and nthreads are
             # expected to be declared in the scope.
             root = node.ancestor(Routine)
